@@ -6,8 +6,8 @@ call time, so no source hook is needed).  Every event carries a full tracker sna
 `_parse_schema` frame it was issued from (found by walking the Python stack), from which the tree of nested
 invocations is rebuilt.  Model side: Coq `trace` of that tree (Model/Cycle.v) must reproduce every snapshot.
 
-The implementation is run in worker sub-processes; their source root can be overridden with the environment
-variable C08_SRC (used for mutation testing against a scratch copy, never /repo itself).
+The implementation is run in worker sub-processes against framework.REPO (VERIF_REPO_ROOT overrides /repo,
+used for mutation testing against a scratch copy, never /repo itself).
 """
 from __future__ import annotations
 
@@ -31,7 +31,11 @@ TRUSTED = [
     "CPython's recursion limit as the stand-in for 'exhausting the interpreter stack' (default limit, 1000 frames)",
 ]
 
-SRC_ROOT = os.environ.get("C08_SRC", "/repo/src")
+def src_root() -> str:
+    from framework import REPO
+    return str(REPO / "src")
+
+
 HARNESS = str(Path(__file__).resolve().parent)
 STATE_CODE = {"not_started": 0, "in_progress": 1, "completed": 2, "placeholder_cycle": 3,
               "placeholder_depth": 4, "placeholder_self_ref": 5}
@@ -47,7 +51,41 @@ def R(n: str) -> dict:
     return {"$ref": "#/components/schemas/" + n}
 
 
+def nest_anon(kind: str, k: int, leaf: Any) -> Any:
+    node = leaf
+    for _ in range(k):
+        if kind == "oneof":
+            node = {"oneOf": [node, {"type": "string"}]}
+        elif kind == "anyof":
+            node = {"anyOf": [node, {"type": "string"}]}
+        elif kind == "allof":
+            node = {"allOf": [node]}
+        elif kind == "map":
+            node = {"type": "object", "additionalProperties": node}
+        elif kind == "array":
+            node = {"type": "array", "items": node}
+        elif kind == "inline":
+            node = {"type": "object", "properties": {"p": node}}
+        else:
+            raise ValueError(kind)
+    return node
+
+
+def expand(node: Any) -> Any:
+    """Case inputs keep deep nestings as a recipe {"$nest": [kind, k, leaf]} (JSON files with 1000+ levels cannot
+    be written by json.dump); the document handed to the loader has them expanded."""
+    if isinstance(node, dict):
+        if set(node) == {"$nest"}:
+            kind, k, leaf = node["$nest"]
+            return nest_anon(kind, k, expand(leaf))
+        return {a: expand(b) for a, b in node.items()}
+    if isinstance(node, list):
+        return [expand(x) for x in node]
+    return node
+
+
 def make_doc(case: dict) -> dict:
+    case = {**case, "schemas": expand(case["schemas"]), "op": expand(case.get("op"))}
     resp: dict[str, Any] = {"description": "ok"}
     if case.get("op") is not None:
         resp["content"] = {"application/json": {"schema": case["op"]}}
@@ -214,7 +252,7 @@ def run_workers(cases: list[dict], jobs: int = 12) -> list[dict]:
     for i in range(len(cases)):
         chunks[i % jobs].append(i)
     env = dict(os.environ)
-    env["PYTHONPATH"] = f"{SRC_ROOT}:{HARNESS}"
+    env["PYTHONPATH"] = f"{src_root()}:{HARNESS}"
     env["PYTHONHASHSEED"] = "0"
     env["PYTHONDONTWRITEBYTECODE"] = "1"
     procs = []
@@ -340,12 +378,12 @@ def rebuild(events: list[dict]) -> dict:
             "fell": fell}
 
 
-def strip(item: Any) -> Any:
-    """JSON form of a call tree item (for replay files / samples)"""
+def strip(item: Any, limit: int = 8) -> Any:
+    """JSON form of a call tree item (for replay files / samples); cut below `limit` levels"""
     if isinstance(item, list):
         return item
     return {"name": item["name"], "allow": item["allow"], "action": item["action"], "nexits": item["nexits"],
-            "body": [strip(x) for x in item["body"]]}
+            "body": [strip(x, limit - 1) for x in item["body"]] if limit > 0 else "(cut)"}
 
 
 # ---------------------------------------------------------------- the property's own oracle
@@ -396,43 +434,58 @@ def oracle(case: dict, res: dict, rb: dict) -> list[str]:
 
 # ---------------------------------------------------------------- Coq printers
 def c_item(x: Any) -> str:
-    from framework import cbool, clist, copt, cstr
-    if isinstance(x, list):
-        return f"({'Reg' if x[0] == 'reg' else 'Unreg'} {cstr(x[1])})"
-    return f"(Call {copt(x['name'], cstr)} {cbool(x['allow'])} {clist(c_item(y) for y in x['body'])})"
+    """Coq term of one item; iterative (trees can be ~1000 deep, CPython 3.12 caps C-level recursion)"""
+    from framework import cbool, copt, cstr
+    out: list[str] = []
+    work: list[Any] = [x]
+    while work:
+        y = work.pop()
+        if isinstance(y, str):
+            out.append(y)
+        elif isinstance(y, list):
+            out.append(f"({'Reg' if y[0] == 'reg' else 'Unreg'} {cstr(y[1])})")
+        else:
+            out.append(f"(Call {copt(y['name'], cstr)} {cbool(y['allow'])} [")
+            tail: list[Any] = []
+            for i, ch in enumerate(y["body"]):
+                if i:
+                    tail.append("; ")
+                tail.append(ch)
+            tail.append("])")
+            work.extend(reversed(tail))
+    return "".join(out)
 
 
-HM = 2305843009213693951
+def hsnap(s: dict) -> tuple[int, int]:
+    """the checksum of Corr/C08.v: a += x + 1; b += a over code points with separators"""
+    a, b = 7, 0
 
+    def step(x: int) -> None:
+        nonlocal a, b
+        a += x + 1
+        b += a
 
-def hstep(h: int, x: int) -> int:
-    return (h * 1000003 + x + 1) % HM
-
-
-def hstr(h: int, s: str) -> int:
-    for ch in s:
-        h = hstep(h, ord(ch))
-    return hstep(h, 1114112)
-
-
-def hsnap(s: dict) -> int:
-    h = 7
+    def hstr(n: str) -> None:
+        for ch in n:
+            step(ord(ch))
+        step(1114112)
     for n in s["stack"]:
-        h = hstr(h, n)
-    h = hstep(h, 1114113)
+        hstr(n)
+    step(1114113)
     for k, v in s["states"]:
-        h = hstep(hstr(h, k), STATE_CODE[v])
-    h = hstep(h, 1114113)
+        hstr(k)
+        step(STATE_CODE[v])
+    step(1114113)
     for n in s["parsed"]:
-        h = hstr(h, n)
-    return h
+        hstr(n)
+    return a, b
 
 
 def enc_event(e: dict) -> list[int]:
     s = e["snap"]
     return [0 if e["k"] == "enter" else 1, ACTION_CODE[e["action"]] if e["k"] == "enter" else 9, s["depth"], e["nest"],
             s["ncyc"], s["lcyc"], 1 if s["flag"] else 0, s["nexc"], len(s["stack"]), len(s["states"]),
-            len(s["parsed"]), hsnap(s)]
+            len(s["parsed"]), *hsnap(s)]
 
 
 def c_case(case: dict, rb: dict) -> str:
@@ -560,22 +613,8 @@ def random_graph(rng) -> dict:
     return case
 
 
-def nest_anon(kind: str, k: int, leaf: dict) -> dict:
-    node = leaf
-    for _ in range(k):
-        if kind == "oneof":
-            node = {"oneOf": [node, dict(PRIM)]}
-        elif kind == "anyof":
-            node = {"anyOf": [node, dict(PRIM)]}
-        elif kind == "allof":
-            node = {"allOf": [node]}
-        elif kind == "map":
-            node = {"type": "object", "additionalProperties": node}
-        elif kind == "array":
-            node = {"type": "array", "items": node}
-        elif kind == "inline":
-            node = {"type": "object", "properties": {"p": node}}
-    return node
+def nest(kind: str, k: int, leaf: Any) -> dict:
+    return {"$nest": [kind, k, leaf]}
 
 
 def depth_cases(thorough: bool) -> list[dict]:
@@ -595,17 +634,19 @@ def depth_cases(thorough: bool) -> list[dict]:
                                       kind=f"ring-md{md}"))
             # nesting inside one schema: named (inline objects / arrays get synthetic names) and anonymous
             for nk in ("inline", "array"):
-                if md <= 5 or k <= md + 1:
+                # (synthetic names grow by 1-4 characters per level: at md=150 one such trace costs minutes of
+                #  vm_compute, so only the placeholder-producing depth is kept, thorough tier only)
+                if md <= 5 or (thorough and k == md + 1):
                     out.append({"kind": f"nest-{nk}-md{md}", "max_depth": md, "op": None,
-                                "schemas": {"Deep": nest_anon(nk, k, dict(PRIM)), "Other": {"type": "object", "properties": {"d": R("Deep")}}}})
+                                "schemas": {"Deep": nest(nk, k, dict(PRIM)), "Other": {"type": "object", "properties": {"d": R("Deep")}}}})
             if md <= 5:
                 for nk in ("oneof", "allof", "map", "anyof"):
                     out.append({"kind": f"nest-{nk}-md{md}", "max_depth": md, "op": None,
-                                "schemas": {"Deep": nest_anon(nk, k, R("Leaf")), "Leaf": {"type": "object", "properties": {"v": dict(PRIM)}}}})
+                                "schemas": {"Deep": nest(nk, k, R("Leaf")), "Leaf": {"type": "object", "properties": {"v": dict(PRIM)}}}})
     # anonymous nesting well beyond the default limit but within the interpreter's stack
     for nk, k in (("oneof", 160), ("map", 200)):
         out.append({"kind": f"nest-{nk}-{k}", "max_depth": None, "op": None,
-                    "schemas": {"Deep": nest_anon(nk, k, dict(PRIM))}})
+                    "schemas": {"Deep": nest(nk, k, dict(PRIM))}})
     return out
 
 
@@ -664,6 +705,16 @@ def main(chk, replay: dict | None = None) -> int:
     results = run_workers(inputs)
     chk.say(f"[C08] implementation runs: {len(inputs)} documents in {time.time() - t0:.1f}s")
     cases = [evaluate(c, r) for c, r in zip(inputs, results)]
+    # spread the heavy traces over the Coq shards (deal by decreasing weight)
+    shard = 60
+    nsh = max(1, -(-len(cases) // shard))
+    by_weight = sorted(range(len(cases)), key=lambda i: -sum(len(n) + 1 for n in (cases[i]["_rb"]["used"][-1]["snap"]["parsed"]
+                                                                 if cases[i]["_rb"]["used"] else [])) * 1000
+                       - cases[i]["obs"]["used_events"])
+    buckets: list[list[int]] = [[] for _ in range(nsh)]
+    for pos, i in enumerate(by_weight):
+        buckets[pos % nsh].append(i)
+    cases = [cases[i] for bk in buckets for i in bk]
     chk.cov["evaluations"] = len(cases)
     chk.cov["distinct_nontrivial"] = len({json.dumps(c["input"], sort_keys=True) for c in cases
                                           if c["obs"]["used_events"] > 2 * len(c["input"]["schemas"])})
@@ -690,10 +741,10 @@ def main(chk, replay: dict | None = None) -> int:
     codes = None
     if chk.model_ok:
         codes = chk.coq_eval("From PG Require Import Lib.Strs Model.Cycle Corr.C08.", "input * obs",
-                             [c_case(c["input"], c["_rb"]) for c in cases], "run", shard=60)
+                             [c_case(c["input"], c["_rb"]) for c in cases], "run", shard=shard)
     for c in cases:
         del c["_rb"]
-    chk.decide(cases, codes, {1: "F08a", 2: "F08b", 3: "F08c"},
+    chk.decide(cases, codes, {1: "F08a", 2: "F08b", 3: "F08c", 4: "F08d"},
                "Corr.C08.run: Coq trace of the rebuilt call trees = tracker snapshots recorded at every enter/exit")
     return chk.finish(TRUSTED,
                       rule="corpus + enumerated graphs over <=3 named schemas x 8 edge kinds (+ node shapes, declaration "
